@@ -9,9 +9,11 @@ package main
 //     statement group becomes one constructor, anything else SkUnknown "<text>");
 //   - isValidKey's length constant and character ranges;
 //   - whether mem.Put stores a copy and mem.Get returns a copy;
+//   - createTemp's shape: the source of the staging file's name, its number
+//     of random bytes, and that the file is created in the directory given;
 //   - the normalised statement texts of the remaining small functions
-//     (Open/Has/hasFile/createTemp/newFSObjects, mem and mapped methods,
-//     Hash/HashReader, CheckReader constructors and Read), which
+//     (NewFS/Open/Has/hasFile/newFSObjects/notFound, mem and mapped methods,
+//     Hash/HashStr/HashReader/HashFile, CheckReader constructors and Read), which
 //     Obj/ObjGen.v compares with the texts the hand-written model was
 //     written against.
 
@@ -248,6 +250,26 @@ func genObj(repo string) (string, error) {
 	}
 	fmt.Fprintf(&b, "Definition gen_tmp_dir_name : list N := %s.\n\n", coqBytesOfString(tmpName))
 
+	// createTemp: where the name of a staging file comes from, how many random
+	// bytes it has, and that the file is created inside the directory given
+	tmpSrc, tmpBytes, tmpInDir := "<unrecognised>", "0", false
+	if fd := po.funcDecl("", "createTemp"); fd != nil && fd.Body != nil && len(fd.Body.List) == 2 &&
+		len(fd.Type.Params.List) == 1 && len(fd.Type.Params.List[0].Names) == 1 {
+		dirParam := fd.Type.Params.List[0].Names[0].Name
+		if as, is := fd.Body.List[0].(*ast.AssignStmt); is && as.Tok == token.DEFINE && len(as.Lhs) == 1 && len(as.Rhs) == 1 {
+			if call, is := as.Rhs[0].(*ast.CallExpr); is && len(call.Args) == 1 {
+				if lit, is := call.Args[0].(*ast.BasicLit); is && lit.Kind == token.INT {
+					tmpSrc, tmpBytes = po.src(call.Fun), lit.Value
+				}
+			}
+			want := "return os.Create(filepath.Join(" + dirParam + ", " + po.src(as.Lhs[0]) + "))"
+			tmpInDir = po.src(fd.Body.List[1]) == want
+		}
+	}
+	fmt.Fprintf(&b, "Definition gen_tmp_name_src : string := %s.\n", coqStr(tmpSrc))
+	fmt.Fprintf(&b, "Definition gen_tmp_name_bytes : N := %s%%N.\n", tmpBytes)
+	fmt.Fprintf(&b, "Definition gen_tmp_in_dir : bool := %s.\n\n", coqBool(tmpInDir))
+
 	putTexts := po.bodyTexts(po.funcDecl("mem", "Put"))
 	getTexts := po.bodyTexts(po.funcDecl("mem", "Get"))
 	fmt.Fprintf(&b, "Definition gen_mem_put_copies : bool := %s.\n", coqBool(memCopies(putTexts, "bs", "return m.put(cp)")))
@@ -264,7 +286,6 @@ func genObj(repo string) (string, error) {
 		{"gen_fs_Has", po, "fsObjects", "Has"},
 		{"gen_fs_filename", po, "fsObjects", "filename"},
 		{"gen_hasFile", po, "", "hasFile"},
-		{"gen_createTemp", po, "", "createTemp"},
 		{"gen_newFSObjects", po, "", "newFSObjects"},
 		{"gen_mem_Open", po, "mem", "Open"},
 		{"gen_mem_Create", po, "mem", "Create"},
@@ -279,8 +300,12 @@ func genObj(repo string) (string, error) {
 		{"gen_NewPsql", po, "", "NewPsql"},
 		{"gen_ReadJSON", po, "", "ReadJSON"},
 		{"gen_CreateJSON", po, "", "CreateJSON"},
+		{"gen_NewFS", po, "", "NewFS"},
+		{"gen_notFound", po, "", "notFound"},
 		{"gen_Hash", ph, "", "Hash"},
 		{"gen_HashReader", ph, "", "HashReader"},
+		{"gen_HashStr", ph, "", "HashStr"},
+		{"gen_HashFile", ph, "", "HashFile"},
 		{"gen_NewCheckReader", ph, "", "NewCheckReader"},
 		{"gen_NewSHA256CheckReader", ph, "", "NewSHA256CheckReader"},
 		{"gen_CheckReader_Read", ph, "CheckReader", "Read"},
